@@ -262,13 +262,13 @@ func suiteC10(cfg Config, res *Result) {
 			}
 			pc := ProgCase{Src: tname(lvl), FromFile: true, Loaders: []map[string]string{files}, Ctx: &ct, Label: lbl}
 			cases = append(cases, pc)
-			wants[pc.Req()] = sb.String()
+			wants[pc.Key()] = sb.String()
 			if i%5 == 2 && lvl == k {
 				// the same template reached through an include instead of directly
 				pc2 := ProgCase{Src: `[{% include "` + tname(lvl) + `" %}|{% include inc %}]`, Loaders: []map[string]string{files},
 					Ctx: &CtxTerm{Names: []string{"two", "inc"}, Vals: []VT{vList("int", vInt(1), vInt(2)), vStr(tname(lvl))}}, Label: lbl}
 				cases = append(cases, pc2)
-				wants[pc2.Req()] = "[" + sb.String() + "|" + sb.String() + "]"
+				wants[pc2.Key()] = "[" + sb.String() + "|" + sb.String() + "]"
 			}
 		}
 		if i%4 == 0 {
@@ -311,7 +311,7 @@ func suiteC10(cfg Config, res *Result) {
 	}
 	runProgCases(cfg, res, cases, "c10", func(c ProgCase, o ImplOutcome) bool { return c.Label == "super" },
 		func(c ProgCase, o ImplOutcome) *Finding {
-			want := wants[c.Req()]
+			want := wants[c.Key()]
 			if o.Class != "ok" || o.Out != want {
 				return &Finding{Kind: "oracle", Proj: "reference", Sig: "c10-reference", Case: c.String(), Impl: o.Canon() + " " + o.Msg, Model: "reference resolution: ok " + hxb(want)}
 			}
